@@ -367,9 +367,15 @@ def rule_r4(prog, res) -> None:
                 J = joins[0].args[0]
 
                 def shape(e, depth=0):
-                    e = symx.strip_wrappers(e)
                     if depth > 6:
                         return None
+                    e = symx.strip_wrappers(e)
+                    if isinstance(e, ast.List) and len(e.elts) == 1 and isinstance(e.elts[0], ast.Starred) and isinstance(e.elts[0].value, ast.Call) and isinstance(e.elts[0].value.func, ast.Name) and e.elts[0].value.func.id == symx.LOOP and e.elts[0].value.args:
+                        # a list filled by `append` in a loop over Y: one item per element of Y (the loop form of
+                        # `[f(v) for v in Y]`)
+                        inner = [y for y in ast.walk(e.elts[0].value.args[0]) if isinstance(y, ast.Call) and isinstance(y.func, ast.Name) and y.func.id == symx.ELEM and y.args]
+                        if len(inner) >= 1:
+                            return shape(inner[0].args[0], depth + 1)
                     if isinstance(e, (ast.ListComp, ast.GeneratorExp)) and len(e.generators) == 1 and not e.generators[0].ifs:
                         return shape(e.generators[0].iter, depth + 1)
                     if isinstance(e, (ast.List, ast.Tuple)):
@@ -433,13 +439,49 @@ def rule_r4(prog, res) -> None:
         res.ok("C11.R4", res.site(ld), f"{n_written} columns written per row, {n_read} unpacked")
     else:
         res.violation("C11.R4", ld, unpack[0], f".dat rows have {n_written} values (header announces {cols_w}) but load_data unpacks {n_read}", key_extra="dat-arity")
-    # the unpacked order: zleft, zright, data, error  vs written column order (parameter names of write_data)
+    # the column roles: written in the order of write_data's (keyword) parameters; read back by position — decided on
+    # the symbolic return value of load_data (`…loadtxt(…).T[k]`), so the names of its locals do not matter:
+    # edges = append(column of zleft, last element of column of zright), data = column of data
+    from .. import symx
+
     wnames = [unparse(a) for a in shd[0]]
-    rnames = [e.id if isinstance(e, ast.Name) else "_" for e in unpack[0].targets[0].elts]
-    if wnames[:3] == rnames[:3]:
-        res.ok("C11.R4", res.site(ld, "column order"), f"columns written as {wnames} and read as {rnames}")
+
+    def col_index(e):
+        e = symx.strip_wrappers(e)
+        if isinstance(e, ast.Subscript) and isinstance(e.slice, ast.Constant) and isinstance(e.slice.value, int) and "loadtxt" in unparse(e.value):
+            return e.slice.value
+        return None
+
+    roles = None
+    for p_ in symx.explore(prog, ld, inline=symx.inline_private_helpers(prog)):
+        if p_.outcome != "return" or not isinstance(p_.value, ast.Tuple):
+            continue
+        got = {}
+        for el in p_.value.elts:
+            k = col_index(el)
+            if k is not None:
+                got["data"] = k
+            for c in [x for x in ast.walk(el) if isinstance(x, ast.Call) and (dotted(x.func) or "").split(".")[-1] in ("append", "concatenate", "hstack", "r_")]:
+                parts = list(c.args[0].elts) if len(c.args) == 1 and isinstance(c.args[0], (ast.Tuple, ast.List)) else list(c.args)
+                if len(parts) == 2:
+                    a, b = parts
+                    b_ = b.value if isinstance(b, ast.Subscript) and col_index(b) is None else b
+                    if isinstance(b, (ast.List, ast.Tuple)) and len(b.elts) == 1:
+                        b_ = b.elts[0].value if isinstance(b.elts[0], ast.Subscript) else b.elts[0]
+                    if col_index(a) is not None and col_index(b_) is not None:
+                        got["zleft"], got["zright"] = col_index(a), col_index(b_)
+        if roles is not None and got != roles:
+            raise AnalysisError("C11.R4: load_data reads different columns on different paths")
+        roles = got
+    if not roles or set(roles) != {"zleft", "zright", "data"}:
+        raise AnalysisError(f"C11.R4: column roles read by load_data not recognised ({roles})")
+    want = {k: wnames.index(k) for k in ("zleft", "zright", "data") if k in wnames}
+    if len(want) != 3:
+        raise AnalysisError(f"C11.R4: write_data no longer writes the columns zleft, zright, data ({wnames})")
+    if roles == want:
+        res.ok("C11.R4", res.site(ld, "column order"), f"columns written as {wnames}; read back: left edges from column {roles['zleft']}, right edge from column {roles['zright']}, data from column {roles['data']}")
     else:
-        res.violation("C11.R4", ld, unpack[0], f"columns are written in the order {wnames} but read as {rnames}", key_extra="dat-column-order")
+        res.violation("C11.R4", ld, unpack[0], f"columns are written in the order {wnames} but read as { {k: f'column {v}' for k, v in sorted(roles.items())} }", key_extra="dat-column-order")
     # samples: two binning columns then the samples, reader drops exactly two
     shs = row_shape(ws)
     lead = len(shs[0]) if shs is not None and shs[1] is not None else None
